@@ -37,6 +37,11 @@ T = {
          "The filter decides from a 3-token window, so enumerating every stream of length <=3 over an alphabet that contains every omissible element (with/without attributes), look-alike names, foreign elements, void elements, text, whitespace, comments and doctype visits every decision it can make; longer streams over a reduced alphabet would expose state added by a change. Each removed token is checked against ref/optional_tags.py.",
          "ref/optional_tags.py (my transcription of the June-2020 WHATWG 'optional tags' section) is trusted; element names outside the alphabet behave like 'unknownx'; Characters tokens that begin with whitespace are outside the walker contract and not in the alphabet",
          "6/C13"),
+ "C16": ("model_checking",
+         "explicit-state BFS over the six tokenizer character alphabets (document and fragment parses; every prefix = every truncation at EOF) and the eight tree themes; state key = suspended parser state; oracle on every execution: strict raises html5parser.ParseError iff the non-strict run records an error, the message is the first recorded error's, every record has a code in constants.E that formats with its variables and a position inside the input; fixed list of conforming documents records none",
+         "Both parses (strict and non-strict) are executed on the real parser for every explored word, so every reachable (tokenizer state x EOF) and (insertion mode x token) error site inside the bounds is hit, and the error-code coverage (111 of 132 codes in quick) is reported.",
+         "conforming-document clause uses 12 hand-written documents here and the generated conforming trees of C07; codes not reached inside the bounds are listed in the evidence by omission",
+         "6/C16"),
  "C17": ("model_checking",
          "explicit-state BFS over walker-shaped token streams; product state = (reference element stack, trailing-whitespace flag, the real filter's `preserve` counter read from its suspended generator frame); every transition executes the real filter; oracle = reference transducer + pass-through + idempotence; flat exhaustive pass over arbitrary unbalanced streams for the pass-through clauses",
          "All balanced-prefix token streams up to depth 5 (thorough 7) over 22 letters (7 element kinds incl. every preserve class and nesting, 12 text tokens covering all five whitespace characters and runs split across tokens, void tag, comment, attribute with whitespace) are explored up to state equivalence, with a one-step bisimulation check of the state key; each is compared with an independent reference transducer and re-filtered for idempotence.",
